@@ -543,7 +543,10 @@ def valid_forest(nodes):
                 return False
             if not valid_forest(n[3]):
                 return False
-        elif k in ('t', 'c'):
+        elif k == 't':
+            if len(n) not in (2, 3) or not isinstance(n[1], str) or (len(n) == 3 and not isinstance(n[2], bool)):
+                return False
+        elif k == 'c':
             if len(n) != 2 or not isinstance(n[1], str):
                 return False
         elif k == 'p':
